@@ -650,7 +650,7 @@ func c42Expect(cmd c42Cmd, redirs []c42Redir) c42Model {
 	}
 	rec(0, 0)
 	if m.hangKey == "" {
-		m.hangKey = "hang:redirection:" + m.lastEvent
+		m.hangKey = "hang:redirection:" + c42KeyEvent(m.lastEvent)
 	}
 	return m
 }
@@ -704,11 +704,12 @@ func c42Diff(want, got c42Outcome, openedBy map[string]string) []string {
 
 type c42Obs struct {
 	c42Outcome
-	ExcMsg string   `json:"msg"`
-	Panic  string   `json:"panic"`
-	Leaks  []string `json:"leaks"`
-	Err    string   `json:"err"` // harness-side problem
-	Bye    bool     `json:"bye"` // the worker exits after this answer
+	ExcMsg  string   `json:"msg"`
+	Panic   string   `json:"panic"`
+	PanicFn string   `json:"panicfn"`
+	Leaks   []string `json:"leaks"`
+	Err     string   `json:"err"` // harness-side problem
+	Bye     bool     `json:"bye"` // the worker exits after this answer
 }
 
 func c42ExcCat(err error) (cat, msg string) {
@@ -813,9 +814,17 @@ func c42RunReal(ev *eval.Evaler, src, caseDir, baseDir string) (obs c42Obs) {
 	}
 	ports := []*eval.Port{{File: stdin, Chan: inCh}, {File: capF[0], Chan: capCh[0]}, {File: capF[1], Chan: capCh[1]}}
 	var evalErr error
-	obs.Panic = vk.Try(func() {
+	func() {
+		defer func() {
+			if r := recover(); r != nil {
+				buf := make([]byte, 8192)
+				buf = buf[:runtime.Stack(buf, false)]
+				obs.Panic = fmt.Sprintf("panic: %v", r)
+				obs.PanicFn = c42PanicFunc(string(buf))
+			}
+		}()
 		evalErr = ev.Eval(parse.Source{Name: "c42", Code: src}, eval.EvalCfg{Ports: ports})
-	})
+	}()
 	v1, b1 := get(0)
 	v2, b2 := get(1)
 	stdin.Close()
@@ -1068,27 +1077,45 @@ func (w *c42Worker) run(src string) (int, string) {
 	}
 }
 
+// c42PanicFunc returns the innermost elvish function in a stack trace (of the
+// panicking goroutine), without package path, type parameters and arguments:
+// the stable name of the place that panicked.
+func c42PanicFunc(stack string) string {
+	for _, l := range strings.Split(stack, "\n") {
+		if !strings.HasPrefix(l, "src.elv.sh/pkg/") || strings.Contains(l, "zzverif") {
+			continue
+		}
+		l = strings.TrimPrefix(l, "src.elv.sh/pkg/")
+		if i := strings.LastIndexByte(l, '('); i > 0 && !strings.HasPrefix(l[i:], "(*") {
+			l = l[:i]
+		}
+		if i := strings.Index(l, "[...]"); i >= 0 {
+			l = l[:i] + l[i+5:]
+		}
+		return l
+	}
+	return "unknown"
+}
+
 // c42DeathSite extracts "message @ file" from the stderr of a dead worker.
 func c42DeathSite(stderr string) (msg, site string) {
-	site = "unknown"
-	for _, l := range strings.Split(stderr, "\n") {
-		if msg == "" && (strings.HasPrefix(l, "panic: ") || strings.HasPrefix(l, "fatal error: ")) {
-			msg = l
-		}
-		t := strings.TrimSpace(l)
-		if msg != "" && site == "unknown" && strings.HasPrefix(t, "/") && strings.Contains(t, "/pkg/") &&
-			!strings.Contains(t, "zzverif") {
-			f := filepath.Base(strings.Fields(t)[0])
-			if i := strings.IndexByte(f, ':'); i >= 0 {
-				f = f[:i]
-			}
-			site = f
+	i := strings.Index(stderr, "panic: ")
+	if j := strings.Index(stderr, "fatal error: "); i < 0 || (j >= 0 && j < i) {
+		i = j
+	}
+	if i < 0 {
+		return "worker exited without a panic message: " + strings.TrimSpace(stderr), "unknown"
+	}
+	rest := stderr[i:]
+	msg, _, _ = strings.Cut(rest, "\n")
+	// the first goroutine printed is the panicking one
+	if k := strings.Index(rest, "\n\ngoroutine "); k >= 0 {
+		rest = rest[k+2:]
+		if e := strings.Index(rest, "\n\n"); e >= 0 {
+			rest = rest[:e]
 		}
 	}
-	if msg == "" {
-		msg = "worker exited without a panic message"
-	}
-	return
+	return msg, c42PanicFunc(rest)
 }
 
 // ---------------------------------------------------------------------------
@@ -1250,6 +1277,10 @@ func TestVerifC42(t *testing.T) {
 					return
 				}
 				class := fmt.Sprintf("%d|%s", k.cmd, m.class)
+				expects := "the model expects " + c42Show(m.allowed)
+				if m.notJudged != "" {
+					expects = "the outcome is not judged (" + m.notJudged + "), but it must not crash or hang"
+				}
 				// rejected != "": the model says one of the redirections must be
 				// refused with an exception; whatever else happens instead (other
 				// than a panic) has that one cause.
@@ -1289,13 +1320,13 @@ func TestVerifC42(t *testing.T) {
 					if rejected != "" {
 						key = "not-rejected:" + rejected
 					}
-					report(idx, key, fmt.Sprintf("%q does not return: the worker %s (goroutines: %s); the model expects it to finish with one of %s", src, how, blocked, c42Show(m.allowed)), src)
+					report(idx, key, fmt.Sprintf("%q does not return: the worker %s (goroutines: %s); %s", src, how, blocked, expects), src)
 					l.Case(class + "|hang")
 					return
 				case c42StDied:
 					dropWorker(l)
 					msg, site := c42DeathSite(resp)
-					report(idx, "panic:"+site+":"+c42KeyEvent(m.lastEvent), fmt.Sprintf("%q crashed the process: %s (at %s)", src, msg, site), src)
+					report(idx, "panic:"+site, fmt.Sprintf("%q crashed the process: %s in %s; %s", src, msg, site, expects), src)
 					l.Case(class + "|crash")
 					return
 				}
@@ -1311,7 +1342,7 @@ func TestVerifC42(t *testing.T) {
 					dropWorker(l)
 				}
 				if obs.Panic != "" {
-					report(idx, "panic:"+vk.PanicSite(obs.Panic)+":"+c42KeyEvent(m.lastEvent), fmt.Sprintf("%q panicked: %s", src, obs.Panic), src)
+					report(idx, "panic:"+obs.PanicFn, fmt.Sprintf("%q panicked: %s in %s; %s", src, obs.Panic, obs.PanicFn, expects), src)
 					l.Case(class + "|panic")
 					return
 				}
